@@ -38,6 +38,11 @@ class Brk(Exception):
     pass
 
 
+class FinCtl(Exception):
+    """return / break / continue fired inside a finally part (effect unspecified by the property,
+    except that it must not swallow an error that is in flight)"""
+
+
 class Cnt(Exception):
     pass
 
@@ -79,6 +84,9 @@ def render1(n, ind):
     if t == "forset":
         _, var, lst, body = n
         return "%sfor %s in %s do\n%s\n%send" % (ind, var, lst, render(body, ind + "  "), ind)
+    if t == "formap":
+        _, var, what, mname, body = n
+        return "%sfor %s in %s %s do\n%s\n%send" % (ind, var, what, mname, render(body, ind + "  "), ind)
     if t == "while":
         _, c, bound, body = n
         return "%sdef %s = 0;\n%swhile %s < %s do\n%s  %s += 1;\n%s\n%send" % (
@@ -114,8 +122,13 @@ class Ref:
         self.funs = {}
         self.eq = eq or (lambda a, b: a == b)
         self.steps = 0
+        self.in_finally = 0
+        self.log_unspecified = False     # a control exit fired inside a finally part
+        self.all_unspecified = False     # ... while no error was in flight
 
     def fire(self, k, e):
+        if self.in_finally and k in (3, 4, 5):
+            raise FinCtl()
         if k == 0:
             raise Err(e)
         if k == 1:
@@ -153,6 +166,8 @@ class Ref:
             return None
         if t == "block":
             _, body, catches, fin = n
+            pending = None
+            val = None
             try:
                 try:
                     val = self.run(body)
@@ -163,8 +178,20 @@ class Ref:
                             break
                     else:
                         raise
+            except (Err, Ret, Brk, Cnt, FinCtl) as e:
+                pending = e
+            # the finally part runs exactly once, however the block is left
+            self.in_finally += 1
+            try:
+                self.run(fin)            # an error raised here replaces whatever was pending
+            except FinCtl:
+                self.log_unspecified = True
+                if not isinstance(pending, Err):
+                    self.all_unspecified = True
             finally:
-                self.run(fin)
+                self.in_finally -= 1
+            if pending is not None:
+                raise pending
             return val
         if t in ("for", "forset"):
             _, var, lst, body = n
@@ -173,6 +200,24 @@ class Ref:
                 items = sorted_distinct(items)
             for x in items:
                 v[var] = x
+                try:
+                    self.run(body)
+                except Brk:
+                    break
+                except Cnt:
+                    continue
+            return None
+        if t == "formap":
+            _, var, what, mname, body = n
+            pairs = v[mname]                      # list of (key, value) language values, keys distinct
+            order = []
+            for kv in pairs:
+                i = 0
+                while i < len(order) and order[i][0] < kv[0]:
+                    i += 1
+                order.insert(i, kv)
+            for kk, vv in order:
+                v[var] = kk if what == "keys" else (vv if what == "values" else self.mk([kk, vv]))
                 try:
                     self.run(body)
                 except Brk:
@@ -204,6 +249,9 @@ class Ref:
                 r = e.value
             except (Brk, Cnt):
                 raise Err(self.error)       # stray break / continue leaving a function
+            except FinCtl:
+                self.all_unspecified = True
+                r = None
             self.log.append(self.mk([self.mk(tag), r]))
             return None
         if t == "if":
@@ -227,6 +275,9 @@ class Ref:
             return ("err", self.error)
         except Err as e:
             return ("err", e.value)
+        except FinCtl:
+            self.all_unspecified = True
+            return ("ok", None)
 
 
 def sorted_distinct(items):
